@@ -309,6 +309,11 @@ class SharedMemoryManager:
         return memory
 
     @classmethod
+    def remove_shared_memory(cls, node_name: str, key: Optional[int] = None) -> None:
+        absolute_key = (node_name, key)
+        cls._MEMORIES.pop(absolute_key, None)
+
+    @classmethod
     def reset_memories(cls) -> None:
         for key in list(cls._MEMORIES.keys()):
             cls._MEMORIES.pop(key)
